@@ -22,3 +22,12 @@ Definition mem_has (s : mem) (k : key) : rclass :=
 Definition mem_remove (s : mem) (k : key) : mem * rclass := (aremove k s, ROk).
 Definition mem_close (s : mem) : mem * rclass := (s, ROk).
 Definition mem_range (s : mem) : list (key * val) := s.
+
+(** RangeKeys(handler): `for k, v := range s.db { if !handler(k, v) { return } }` -- Go's map order is unspecified;
+    the model walks its association list (only order-independent observables of it are compared) *)
+Definition mem_range_with {St : Type} (h : St -> key * bytes -> St * bool) (st : St) (s : mem) : St :=
+  iter_with h st (map (fun p => (fst p, val_bytes (snd p))) (mem_range s)).
+(** Destroy: `s.db = make(map[string][]byte)`: the object stays usable (there is no closed state);
+    DestroyClosed calls Destroy *)
+Definition mem_destroy (s : mem) : mem * rclass := (new_mem, ROk).
+Definition mem_destroy_closed (s : mem) : mem * rclass := mem_destroy s.
